@@ -57,6 +57,7 @@ type FnRun struct {
 	props    []string
 	nobl     int
 	locals   map[string][]ssa.Value // source names of locals (from DebugRef), candidates in block order
+	entryMaxObj int
 }
 
 // VerifyFunction generates all obligations of one function under its contract.
@@ -174,6 +175,15 @@ func (ex *Exec) verifyCase(fn *ssa.Function, key string, ctr *Contract, cs *Case
 		env[fv.Name()] = v
 	}
 	fr.env0 = env
+	// assumed invariants of package-level variables
+	if fn.Pkg != nil && fn.Name() != "init" {
+		for _, gi := range ex.DB.Globals {
+			if gi.Pkg == fn.Pkg.Pkg.Path() {
+				st.assume(fr.evalBool(gi.E, &Env{st: st, old: st, vars: map[string]Val{}, fr: fr, pkg: gi.Pkg}))
+				ex.Assumptions["assumed invariant of package-level variables ("+gi.Name+"): "+gi.Src] = true
+			}
+		}
+	}
 	// preconditions
 	if ctr != nil {
 		for _, rq := range ctr.Requires {
@@ -190,6 +200,7 @@ func (ex *Exec) verifyCase(fn *ssa.Function, key string, ctr *Contract, cs *Case
 	entry := st.clone()
 	st.old = entry
 	fr.entry = entry
+	fr.entryMaxObj = ex.objCount
 	fr.runFrom(st, fn.Blocks[0], nil, 0, func(st *State, results []Val) {
 		fr.checkPost(st, results)
 	})
@@ -487,7 +498,17 @@ func (fr *FnRun) checkPost(st *State, results []Val) {
 			fr.ex.Assumptions[fmt.Sprintf("abstract postcondition of %s (not checked against the body): %s", ShortKey(fr.key), en.Src)] = true
 			continue
 		}
-		t := fr.evalBool(en.E, e)
+		t, evalErr := fr.tryEvalBool(en.E, e)
+		if evalErr != "" {
+			// the clause can no longer be stated over this function (e.g. it mentions a captured
+			// variable the function no longer has): the obligation fails
+			d := fmt.Sprintf("%d", i+1)
+			if en.Label != "" {
+				d = en.Label
+			}
+			fr.oblige(st, "post", d, tFalse, en, en.Src+"   [cannot be evaluated: "+evalErr+"]")
+			continue
+		}
 		for j, c := range conjuncts(t) {
 			d := fmt.Sprintf("%d", i+1)
 			if en.Label != "" {
@@ -499,6 +520,7 @@ func (fr *FnRun) checkPost(st *State, results []Val) {
 			fr.oblige(st, "post", d, c, en, "")
 		}
 	}
+	fr.checkFrame(st)
 	fr.defaultPost(st, results)
 }
 
@@ -906,4 +928,17 @@ func (ex *Exec) loopSpecFor(ctr *Contract, ordinal int) *LoopSpec {
 		return ctr.Loops[ordinal]
 	}
 	return nil
+}
+
+func (fr *FnRun) tryEvalBool(x *Expr, env *Env) (t *Term, msg string) {
+	defer func() {
+		if r := recover(); r != nil {
+			if a, ok := r.(*abortErr); ok && strings.Contains(a.msg, "unknown identifier") {
+				t, msg = nil, a.msg
+				return
+			}
+			panic(r)
+		}
+	}()
+	return fr.evalBool(x, env), ""
 }
